@@ -25,3 +25,6 @@ func heapSane() bool   { return timeout.VerifHeapSane() }
 func withPoolLock(f func()) { timeout.VerifWithLock(f) }
 
 func fireTime(f timeout.Future) (time.Time, bool) { return timeout.VerifFireTime(f) }
+
+// abandonPool installs a fresh control block without touching the old one (whose lock may be held for ever).
+func abandonPool(maxWorkers int, idle time.Duration) { timeout.VerifReset(maxWorkers, idle) }
